@@ -129,7 +129,7 @@ def c20(tier):
 
 def c09(tier):
     c = new_check("C09", tier)
-    for model, cfg in cfgs("mc/MC_Paths", tier, [""]):
+    for model, cfg in cfgs("mc/MC_Paths", tier, ["", "pct"]):
         mc_replay(c, model, cfg, "every path within the bound: normalized segments, admissible texts of the normalized "
                                  "copy and of in-place normalisation, stand-alone and inside references")
     return c.finish(rule="all paths (absolute and relative) of bounded segment count over {'', a, ., .., b:c, %2e, e-acute}",
@@ -141,7 +141,7 @@ def c12(tier):
     c = new_check("C12", tier)
     for model, cfg in cfgs("mc/MC_SegIter", tier, [""]):
         mc_replay(c, model, cfg, "every interleaving of next/next_back (two calls past exhaustion) on every path in the bound")
-    for model, cfg in cfgs("mc/MC_Paths", tier, [""]):
+    for model, cfg in cfgs("mc/MC_Paths", tier, ["", "pct"]):
         mc_replay(c, model, cfg, "path queries against the '/'-split of the text")
     return c.finish(rule="paths of bounded segment count with empty, multi-byte and '..' segments; all 2^(n+2) call strings",
                     assumptions=TRUST)
@@ -304,14 +304,14 @@ def c19(tier):
 
 def c15(tier):
     c = new_check("C15", tier)
-    for model, cfg in cfgs("mc/MC_Rel", tier, [""]):
+    for model, cfg in cfgs("mc/MC_Rel", tier, ["", "pct"]):
         r = run_tlc(model, cfg=cfg, name=os.path.basename(cfg), coverage=False)
         c.add_tlc(r, "pairs of URIs sharing prefixes of every length (inputs only; TLC also checks satisfiability)")
         if r.error:
             continue
         rr = run_replay(r.cases_path, name=os.path.basename(cfg))
         c.add_replay(rr, "relative_to executed on every pair, result recorded", r.cases_path)
-        n, bad, tr = vlib.run_trace(rr.obs_path, name="C15-" + tier, select=lambda e: e.get("ev") == "rel")
+        n, bad, tr = vlib.run_trace(rr.obs_path, name="C15-" + os.path.basename(cfg), select=lambda e: e.get("ev") == "rel")
         c.add_trace(n, bad, tr, "recorded (a, b, a.relative_to(b)) judged with the specification's resolver and equivalence")
         with open(rr.obs_path) as fh:
             for line in fh:
@@ -328,14 +328,14 @@ def c15(tier):
 
 def c16(tier):
     c = new_check("C16", tier)
-    for model, cfg in cfgs("mc/MC_Rel", tier, [""]):
+    for model, cfg in cfgs("mc/MC_Rel", tier, ["", "pct"]):
         r = run_tlc(model, cfg=cfg, name=os.path.basename(cfg), coverage=False)
         c.add_tlc(r, "value/prefix pairs of paths and URIs (inputs only; TLC checks prefix ++ suffix = value)")
         if r.error:
             continue
         rr = run_replay(r.cases_path, name=os.path.basename(cfg))
         c.add_replay(rr, "suffix executed on every pair, result recorded", r.cases_path)
-        n, bad, tr = vlib.run_trace(rr.obs_path, name="C16-" + tier, select=lambda e: e.get("ev") == "suffix")
+        n, bad, tr = vlib.run_trace(rr.obs_path, name="C16-" + os.path.basename(cfg), select=lambda e: e.get("ev") == "suffix")
         c.add_trace(n, bad, tr, "recorded suffix results judged by TLC (existence, remaining segments, query/fragment)")
     for model, cfg in cfgs("mc/MC_Parts", tier, ["", "iri"]):
         mc_replay(c, model, cfg, "base() of every valid reference within the bound")
